@@ -35,7 +35,9 @@ SITE_RE = re.compile(
     r"(?P<closeCb>\bcloseCb\s*\()|(?P<closeNow>\bcloseNow\s*\()|(?P<closedTrue>(?:->|\.)\s*closed\s*=\s*true\b)"
     r"|(?P<gaugeDec>\bsessionsCurrent\s*--|--\s*_atomicStats\s*\.\s*sessionsCurrent|sessionsCurrent\s*\.\s*fetch_sub\s*\(|sessionsCurrent\s*-=)"
     r"|(?P<gaugeInc>\bbumpSess\s*\(\s*\))|(?P<idAlloc>\b_nextSessionId\s*\+\+|\+\+\s*_nextSessionId|_nextSessionId\s*\.\s*fetch_add\s*\()"
-    r"|(?P<acceptCb>\bacceptCb\s*\()|(?P<connectCb>\bconnectCb\s*\()|(?P<dataCb>\bdataCb\s*\()")
+    r"|(?P<acceptCb>\bacceptCb\s*\()|(?P<connectCb>\bconnectCb\s*\()|(?P<dataCb>\bdataCb\s*\()"
+    r"|(?P<pendingClear>(?:->|\.)\s*connectPending\s*=\s*false\b)"
+    r"|(?P<gaugeSet>\bsessionsCurrent\s*\.\s*(?:store|exchange)\s*\(|\bsessionsCurrent\s*=[^=])")
 
 CTRL = ("if", "else", "for", "while", "switch", "do", "try", "catch")
 JUMP_RE = re.compile(r"\b(return|continue|break|throw)\b")
@@ -246,6 +248,34 @@ def is_exit_block(src, nd):
     return JUMP_RE.match(txt) is not None
 
 
+RET_RE = re.compile(r"\b(return|throw)\b")
+
+
+def inner_exits(src, nd):
+    """conditions of the if-blocks nested in `nd` whose last statement leaves the FUNCTION (return/throw)"""
+    out = []
+
+    def walk(n):
+        if n.kind == "block":
+            if n.ctl in ("if", "else if") and n.children:
+                body = n.children[0]
+                txt = src[body.start:body.end].strip()
+                last = txt
+                if txt.startswith("{") and body.children:
+                    l = body.children[-1]
+                    last = src[l.start:l.end].strip()
+                if RET_RE.match(last):
+                    out.append("unless(" + norm(n.cond) + ")")
+            for ch in n.children:
+                walk(ch)
+        elif n.kind == "stmt":
+            for ch in n.children:
+                walk(ch)
+    for ch in nd.children:
+        walk(ch)
+    return out
+
+
 def guard_of(src, seq, pos, acc):
     """Walk the statement sequence `seq` to the node containing pos; append guard items to acc."""
     chain = []      # conditions of the current if / else-if chain (for else arms)
@@ -289,12 +319,23 @@ def guard_of(src, seq, pos, acc):
                 chain = chain + [nd.cond]
             else:
                 chain = []
-            if not contains_site(src, nd):
-                if is_exit_block(src, nd):
-                    acc.append("unless(" + norm(nd.cond) + ")")
-                elif JUMP_RE.search(strip_lambdas(src[nd.start:nd.end])):
-                    # a site-free conditional that can leave the block somewhere inside (e.g. the stale-timer re-validation)
-                    acc.append("exits{" + norm(src[nd.start:nd.end]) + "}")
+            if is_exit_block(src, nd):
+                # every preceding if-block that ENDS in a jump guards what follows - also when it reports a close itself
+                # (`closeCb(..); return false;`): dropping that `return` un-guards the later sites
+                acc.append("unless(" + norm(nd.cond) + ")")
+            elif contains_site(src, nd):
+                inner = inner_exits(src, nd)
+                if inner:
+                    acc.append("exits[" + ";".join(inner) + "]")
+            elif JUMP_RE.search(strip_lambdas(src[nd.start:nd.end])):
+                # a site-free conditional that can leave the block somewhere inside (e.g. the stale-timer re-validation)
+                acc.append("exits{" + norm(src[nd.start:nd.end]) + "}")
+        elif nd.kind == "block" and nd.ctl in ("for", "while", "do", "plain", "try", "switch"):
+            chain = []
+            if contains_site(src, nd):
+                inner = inner_exits(src, nd)
+                if inner:
+                    acc.append("exits[" + ";".join(inner) + "]")
         elif nd.kind == "stmt" and nd.ctl == "label":
             # a new case label: earlier statements of the switch body belong to other arms
             acc[:] = [a for a in acc if not a.startswith("unless@case")]
@@ -370,7 +411,7 @@ def functions(src):
 
 
 def kind_of(m):
-    for k in ("closeCb", "closeNow", "closedTrue", "gaugeDec", "gaugeInc", "idAlloc", "acceptCb", "connectCb", "dataCb"):
+    for k in ("closeCb", "closeNow", "closedTrue", "gaugeDec", "gaugeInc", "idAlloc", "acceptCb", "connectCb", "dataCb", "pendingClear", "gaugeSet"):
         if m.group(k):
             return k
     raise TranslateError("unclassified site")
@@ -388,6 +429,10 @@ def scan_sites(repo, rel):
         if re.search(r"\bvoid\s*$", before):
             continue
         encl = [f for f in fns if f[1] < pos < f[2]]
+        if not encl and kind == "pendingClear":
+            # (UdpEngine's constructor resets the flag inside a timer lambda: not a member-function body the scanner models)
+            sites.append({"fn": "<ctor>", "kind": kind, "guard": "", "hash": hashlib.sha256(b"").hexdigest()[:8], "line": src.count("\n", 0, pos) + 1})
+            continue
         if not encl:
             raise TranslateError("%s: lifecycle site outside any member function at offset %d: %r" % (rel, pos, src[pos:pos + 40]))
         name, a, b = max(encl, key=lambda f: f[1])
@@ -438,7 +483,9 @@ HFE_TOKENS = [("tagFind", r"(_fdTags|_tags)\s*\.\s*find\s*\(\s*fd\s*\)"), ("notF
 CONNECT_TOKENS = [("idAlloc", r"_nextSessionId\s*\+\+"), ("enqueue", r"\benqueue\s*\("), ("retErr", r"ConnectResult::err\s*\("), ("retOk", r"ConnectResult::ok\s*\(\s*sid\s*\)")]
 ENQ_TOKENS = [("lock", r"lock_guard<std::mutex>\s+g\s*\(\s*(_cmdMutex|_qmx)\s*\)"), ("closedCheck", r"if\s*\(\s*(_cmdsClosed|_qClosed)\s*\)"), ("retFalse", r"return\s+false"),
               ("push", r"(_cmds|_q)\s*\.\s*push_back\s*\("), ("retTrue", r"return\s+true")]
-FANOUT_TOKENS = [("pendingFind", r"pendingConnects\s*\.\s*find\s*\(\s*sid\s*\)"), ("pendingErase", r"pendingConnects\s*\.\s*erase\s*\("),
+FANOUT_TOKENS = [("lockSync", r"lock_guard<std::mutex>\s+lk\s*\(\s*syncMutex\s*\)"), ("lockCallback", r"lock_guard<std::mutex>\s+lk\s*\(\s*callbackMutex\s*\)"),
+                 ("lockObserver", r"lock_guard<std::mutex>\s+lk\s*\(\s*observerMutex\s*\)"), ("lockUserData", r"lock_guard<std::mutex>\s+lk\s*\(\s*userDataMutex\s*\)"),
+                 ("pendingFind", r"pendingConnects\s*\.\s*find\s*\(\s*sid\s*\)"), ("pendingErase", r"pendingConnects\s*\.\s*erase\s*\("),
                  ("suppressReturn", r"op->cv\.notify_one\s*\(\s*\)\s*;[^}]*?return\s*;"),
                  ("copyGlobal", r"closeCb\s*=\s*onCloseCb"), ("callGlobal", r"\bcloseCb\s*\(\s*sid\s*,\s*reason\s*\)"),
                  ("observersFind", r"observers\s*\.\s*find\s*\(\s*sid\s*\)"), ("observersCopy", r"sessionObservers\s*=\s*it->second"),
@@ -467,12 +514,12 @@ def fanout_skeleton(repo):
             hits.append((mm.start(), name))
     hits.sort()
     fan = [h[1] for h in hits]
-    obs = skeleton(src, "observe", [("idAlloc", r"nextObserverId\s*\.\s*fetch_add\s*\("), ("append", r"observers\s*\[\s*sid\s*\]\s*\.\s*emplace_back\s*\("),
+    obs = skeleton(src, "observe", [("idAlloc", r"nextObserverId\s*\.\s*fetch_add\s*\("), ("lockObserver", r"lock_guard<std::mutex>\s+lk\s*\(\s*_impl->observerMutex\s*\)"), ("append", r"observers\s*\[\s*sid\s*\]\s*\.\s*emplace_back\s*\("),
                                     ("index", r"observerToSession\s*\[\s*id\s*\]\s*=\s*sid")], "Transport::observe", signature_contains="CloseCallback")
-    unobs = skeleton(src, "unobserve", [("indexFind", r"observerToSession\s*\.\s*find\s*\(\s*id\s*\)"), ("retFalse", r"return\s+false"),
+    unobs = skeleton(src, "unobserve", [("lockObserver", r"lock_guard<std::mutex>\s+lk\s*\(\s*_impl->observerMutex\s*\)"), ("indexFind", r"observerToSession\s*\.\s*find\s*\(\s*id\s*\)"), ("retFalse", r"return\s+false"),
                                         ("indexErase", r"observerToSession\s*\.\s*erase\s*\("), ("removeIf", r"remove_if\s*\("),
                                         ("eraseEmpty", r"observers\s*\.\s*erase\s*\(\s*obsIt\s*\)"), ("retTrue", r"return\s+true")], "Transport::unobserve")
-    setd = skeleton(src, "setSessionData", [("assign", r"sessionData\s*\[\s*sid\s*\]\s*=\s*\{\s*data\s*,")], "Transport::setSessionData", signature_contains="cleanup")
+    setd = skeleton(src, "setSessionData", [("lockUserData", r"lock_guard<std::mutex>\s+lk\s*\(\s*_impl->userDataMutex\s*\)"), ("assign", r"sessionData\s*\[\s*sid\s*\]\s*=\s*\{\s*data\s*,")], "Transport::setSessionData", signature_contains="cleanup")
     return fan, obs, unobs, setd
 
 
@@ -531,6 +578,30 @@ def gen(repo):
     u_erase = bool(re.search(r"_tags\s*\.\s*erase\s*\(", loop)) or bool(re.search(r"_tags\s*\.\s*clear\s*\(\s*\)", ubody))
     t += "/-- the session loop of shutdownDrain erases the fd tag of every session it frees (tcp `_fdTags`, udp `_tags`) -/\n"
     t += "def tcpDrainErasesTags : Bool := %s\ndef udpDrainErasesTags : Bool := %s\n" % (str(t_erase).lower(), str(u_erase).lower())
+    # ---- the epoll interest of a connecting socket (the kernel can only report EPOLLOUT - the connect completion - if it is registered)
+    dbody = cxxscan.function_body(tsrc, "doConnect")
+    m = re.search(r"std::uint32_t\s+ev\s*=\s*([A-Z_|\s]+);(?:(?!addEpoll).)*?addEpoll\s*\(\s*cfd\s*,\s*ev\s*\)", dbody, re.S)
+    if not m:
+        raise TranslateError("TcpEngine::doConnect: `ev = ...; addEpoll(cfd, ev)` not found")
+    cmask = sorted(x.strip() for x in m.group(1).split("|"))
+    ui = skeleton(tsrc, "updateInterest", [("base", r"bool\s+needWrite\s*=\s*s->wantWrite\s*\|\|\s*!\s*s->wq\.empty\s*\(\s*\)"),
+                                           ("ifHandshake", r"if\s*\(\s*s->tlsState\s*==\s*TlsState::Handshake\s*\)"),
+                                           ("orTlsWantWrite", r"needWrite\s*=\s*needWrite\s*\|\|\s*s->tlsWantWrite"),
+                                           ("else", r"\belse\b"),
+                                           ("orConnectPending", r"needWrite\s*=\s*needWrite\s*\|\|\s*s->connectPending"),
+                                           ("ifNeedWrite", r"if\s*\(\s*needWrite\s*\)"), ("outBit", r"ev\s*\|=\s*EPOLLOUT"),
+                                           ("modEpoll", r"modEpoll\s*\(\s*s->fd\s*,\s*ev\s*\)")], "TcpEngine::updateInterest")
+    t += "/-- TcpEngine::doConnect registers the connecting socket with this epoll mask; updateInterest keeps EPOLLOUT while connectPending -/\n"
+    t += "def tcpConnectEpollMask : List String := %s\ndef tcpUpdateInterest : List String := %s\n" % (lean_list(cmask), lean_list(ui))
+    # ---- id counter is atomic in both engines
+    t += "def tcpNextIdAtomic : Bool := %s\ndef udpNextIdAtomic : Bool := %s\n" % (
+        str(bool(re.search(r"std::atomic\s*<\s*SessionId\s*>\s*_nextSessionId\b", tsrc))).lower(),
+        str(bool(re.search(r"std::atomic\s*<\s*SessionId\s*>\s*_nextSessionId\b", usrc))).lower())
+    # ---- every direct close-callback call works on its own copy of `_cbs.onClose` taken under `_cbMutex`
+    for nm, src_, sites_ in (("tcp", tsrc, tcp), ("udp", usrc, udp)):
+        ncall = len([x for x in sites_ if x["kind"] == "closeCb"])
+        ncopy = len(re.findall(r"lock_guard<std::mutex>\s+g\s*\(\s*_cbMutex\s*\)\s*;\s*closeCb\s*=\s*_cbs\.onClose", src_))
+        t += "def %sCloseCbCalls : Nat := %d\ndef %sOnCloseCopies : Nat := %d\n" % (nm, ncall, nm, ncopy)
     fan, obs, unobs, setd = fanout_skeleton(repo)
     t += "/-- order of the Transport-level close handler (transport_impl.hpp, cbs.onClose) -/\n"
     t += "def fanout : List String := %s\n" % lean_list(fan)
